@@ -50,6 +50,25 @@ Fixpoint nUpg (l : list pkt) : nat :=
 Lemma nUpg_app a b : nUpg (a ++ b) = nUpg a + nUpg b.
 Proof. induction a as [|p a IH]; simpl; [reflexivity|]. destruct p; simpl; rewrite IH; lia. Qed.
 
+(** What the client may have put on the candidate websocket while the server is still probing it:
+    probe PINGs, then UPGRADE, and only after that anything else. *)
+Fixpoint pre_ok (l : list pkt) : bool :=
+  match l with
+  | [] => true
+  | Ping :: l' => pre_ok l'
+  | Upg :: _ => true
+  | _ => false
+  end.
+
+Lemma pre_ok_snoc_ping l : pre_ok l = true -> pre_ok (l ++ [Ping]) = true.
+Proof. induction l as [|p l IH]; simpl; [reflexivity|]. destruct p; auto. Qed.
+Lemma pre_ok_snoc_upg l : pre_ok l = true -> pre_ok (l ++ [Upg]) = true.
+Proof. induction l as [|p l IH]; simpl; [reflexivity|]. destruct p; auto. Qed.
+Lemma pre_ok_snoc_any l x : pre_ok l = true -> 1 <= nUpg l -> pre_ok (l ++ [x]) = true.
+Proof.
+  induction l as [|p l IH]; simpl; [lia|]. destruct p; intros H U; try discriminate; auto.
+Qed.
+
 (** ** the invariant *)
 Definition gbusy (g : gst) : nat := match g with GIdle => 0 | _ => 1 end.
 Definition rbusy (r : resp) : nat := match r with RNone => 0 | _ => 1 end.
@@ -81,6 +100,9 @@ Record inv (n : N) (st : state) : Prop := {
   i_ptm : c_cand st = KProbe -> c_tm st <> TOff;
   i_sw : (c_cand st = KProbe \/ c_cand st = KSwapWait) -> c_paused st = true;
   i_idle : c_committed st = true -> c_loop st <> LFlight;
+  i_pre2 : (k_ws st = WNone \/ k_ws st = WDialing) -> c_cand st = KNone \/ c_cand st = KDial;
+  i_shape : s_ws st = false -> pre_ok (k_cs st) = true;
+  i_upg2 : c_ws st = true -> s_ws st = false -> (k_ws st = WOpen \/ k_ws st = WStalled) -> 1 <= nUpg (k_cs st);
   b_sc : s_ws st = false -> cnt n (k_sc st) = 0;
   b_cs : c_ws st = false -> cnt n (k_cs st) = 0;
   b_pq : s_ws st = true -> cnt n (s_pq st) = 0;
@@ -224,8 +246,11 @@ Ltac split1 :=
   | H : ?b = true <-> _ |- _ => is_var b; destruct b
   end; cbn in *; fw; cbn in *; absurd_now.
 
+Ltac pre_tac :=
+  first [ apply pre_ok_snoc_ping; fin1 | apply pre_ok_snoc_upg; fin1 | apply pre_ok_snoc_any; fin1 ].
+
 Ltac go I H :=
-  destruct I as [i_sc i_cup i_exit i_rl i_wsrl i_tok i_park i_woke i_bad i_up1 i_up2 i_lexit i_open i_cand i_upg i_noupg i_pong i_pre i_closed i_paused i_ptm i_sw i_idle b_sc b_cs b_pq b_s2c b_c2s];
+  destruct I as [i_sc i_cup i_exit i_rl i_wsrl i_tok i_park i_woke i_bad i_up1 i_up2 i_lexit i_open i_cand i_upg i_noupg i_pong i_pre i_closed i_paused i_ptm i_sw i_idle i_pre2 i_shape i_upg2 b_sc b_cs b_pq b_s2c b_c2s];
   unfold c_committed, s_upgraded in *;
   cbn in *; dmatch H; injection H as <-;
   try (match goal with x : lst |- _ => pose proof (lflight_le x) end);
@@ -235,7 +260,7 @@ Ltac go I H :=
   unfold c_committed, s_upgraded; cbn; hnorm; cbn in *; fw; cbn in *; absurd_now;
   repeat split1;
   constructor; cbn; gnorm;
-  try solve [ intros; fin1 | intros; mp; fw; cbn in *; fin1 ]; try fin.
+  try solve [ intros; fin1 | intros; mp; fw; cbn in *; fin1 | intros; mp; fw; cbn in *; pre_tac ]; try fin.
 Ltac label_case :=
   match goal with
   | I : inv _ ?st, H : step _ ?st = Some _ |- _ => destruct st; unf H; go I H
